@@ -19,8 +19,14 @@ theorem close_site : closeCalls = ["close(s.closeChan)", "s.wg.Wait()", "s.provi
 /-- `butLast`: what Flush / Close persist is the queue without its last element -/
 theorem list_frozen : listFrozenSlice = ["mq.queue[:len(mq.queue)-1]"] := by decide
 
-/-- `initCounter`: every file name with a `_` counts; the maximum is stored -/
-theorem counter_init : counterConds = ["strings.Contains(name, \"_\")", "id > maxSegmentID"] ∧
+/-- `initCounter`: every file name whose part after the first `_` (suffixes .bin.gz / .bin trimmed)
+    is a decimal number counts — whatever its kind —, and the maximum is stored. Stated over the
+    function together with the helpers it calls, by call shape, so that moving the parsing into a
+    shared helper does not matter. -/
+theorem counter_init :
+    counterParse = ["strings.Split(_, \"_\")", "strings.TrimSuffix(_, \".bin.gz\")",
+      "strings.TrimSuffix(_, \".bin\")", "strconv.ParseUint(_, 10, 64)", "_[1]"] ∧
+    counterKindFilter = [] ∧ counterMax = ["id > maxSegmentID"] ∧
     counterStore = ["p.segmentCounter.Store(maxSegmentID)"] := by decide
 
 /-- `writeSegment`: id := counter + 1 (atomic add) -/
